@@ -188,20 +188,27 @@ func cmdEnum(args []string) {
 				for k, t := range idx {
 					argv[k] = d.Tokens[t]
 				}
-				c := gh.Case{Ev: "case", Def: d.ID, ID: *idBase + id, Argv: argv, Disp: d.Disp}
-				c.Res = gh.RunCase(d, &c)
-				line, _ := json.Marshal(&c)
-				block = append(block, line)
-				cases++
-				countCase(&c)
-				if c.Res.Raw != baseRaw {
-					nontrivial++
+				targets := []string{""}
+				if d.Comp {
+					targets = []string{"bash", "zsh"}
+					argv = append([]gh.Tok{d.Cfg.Prog}, argv...)
 				}
-				if c.Res.Hang {
-					writeBlock(w, d, block)
-					w.Flush()
-					fmt.Printf("HANG case=%d\n", id)
-					os.Exit(3)
+				for ti, target := range targets {
+					c := gh.Case{Ev: "case", Def: d.ID, ID: *idBase + 2*id + ti, Argv: argv, Disp: d.Disp, Comp: target}
+					c.Res = gh.RunCase(d, &c)
+					line, _ := json.Marshal(&c)
+					block = append(block, line)
+					cases++
+					countCase(&c)
+					if c.Res.Raw != baseRaw {
+						nontrivial++
+					}
+					if c.Res.Hang {
+						writeBlock(w, d, block)
+						w.Flush()
+						fmt.Printf("HANG case=%d\n", id)
+						os.Exit(3)
+					}
 				}
 			}
 			if len(idx) == L {
